@@ -858,7 +858,10 @@ def include_premises(cx: Cx, pids: List[str], why: str = '', only=None):
         sub = Cx(q, cx.prog, cx.tier)
         sub.ti, sub.walker, sub._effects = cx.ti, cx.walker, cx._effects
         sub.is_premise = True
-        importlib.import_module(f"props.{q.lower()}").run(sub)
+        try:
+            importlib.import_module(f"props.{q.lower()}").run(sub)
+        except Exception as ex:          # the premise's own check reports this; what it had found before is still forwarded
+            cx.note(f"premise {q} could not be evaluated completely on this tree: {type(ex).__name__}: {ex}")
         if cx._effects is None:
             cx._effects = sub._effects
         known = {k.key for k in load_known() if k.pid == q and k.status == 'open'}
@@ -922,6 +925,7 @@ def object_truthiness_atoms(cx: Cx, fn: FuncInfo, formula) -> List[Term]:
 def check_presence_not_truthiness(cx: Cx, quals: List[str], rule='R-NONE'):
     """No branch of the listed functions decides on the truth value of a system / agent / component object."""
     n = 0
+    from sa.terms import BoolT
     for q in quals:
         fn = cx.fn(q)
         bad = None
@@ -933,6 +937,23 @@ def check_presence_not_truthiness(cx: Cx, quals: List[str], rule='R-NONE'):
                 ts = object_truthiness_atoms(cx, fn, e.data['formula'])
                 if ts and bad is None:
                     bad = (e, ts[0])
+            # a returned truth value: `return all(d.get(k) for k in keys)`, `return bool(d.get(k))`
+            if p.end == 'return' and bad is None:
+                v = strip_versions(p.last.data.get('value'))
+                forms = []
+                if isinstance(v, BoolT):
+                    forms.append(v.f)
+                if isinstance(v, App) and v.fn in ('all', 'any', 'bool') and v.args:
+                    a0 = v.args[0]
+                    if isinstance(a0, Fresh) and a0.detail is not None and getattr(a0.detail, 'elt', None) is not None:
+                        forms.append(ATruthy(a0.detail.elt))
+                    elif not isinstance(a0, Fresh):
+                        forms.append(ATruthy(a0))
+                for f_ in forms:
+                    ts = object_truthiness_atoms(cx, fn, f_)
+                    if ts:
+                        bad = (p.last, ts[0])
+                        break
         if bad is not None:
             e, t = bad
             cx.violation(rule, fn.qualname, 'presence-decided-by-membership-not-truthiness',
@@ -942,3 +963,66 @@ def check_presence_not_truthiness(cx: Cx, quals: List[str], rule='R-NONE'):
             cx.ok(rule, f"{fn.name}: no branch on the truth value of a system / agent / component object", where=cx.where(fn),
                   function=fn.qualname)
     return n
+
+
+# ---------------------------------------------------------------------------------------------- memoisation
+_MEMO = ('lru_cache', 'cache', 'cached_property', 'memoize', 'memoized')
+
+
+def _memo_name(e) -> Optional[str]:
+    """'lru_cache' for lru_cache / functools.lru_cache / lru_cache(...)."""
+    if isinstance(e, ast.Call):
+        e = e.func
+    nm = e.id if isinstance(e, ast.Name) else (e.attr if isinstance(e, ast.Attribute) else None)
+    return nm if nm in _MEMO else None
+
+
+def check_no_stateful_memo(cx: Cx, rule='R-SHARED'):
+    """Memoisation keeps one result per argument tuple for the life of the process.  That is only transparent for a function of
+    immutable arguments that returns an immutable value: a memoised function that returns an object built in the call hands the
+    SAME object to every caller (two worlds share one cell table), one that reads attributes of its arguments (or is a method)
+    answers from the state the object had at the first call, and a memoised constructor (Pool) is a process-wide singleton."""
+    if getattr(cx, '_memo_checked', False):
+        return
+    cx._memo_checked = True
+    n = 0
+    for fn in cx.prog.all_functions:
+        decs = [d for d in fn.node.decorator_list if _memo_name(d)]
+        if not decs:
+            continue
+        n += 1
+        params = set(fn.params + fn.kwonly)
+        reads = [y for y in ast.walk(fn.node) if isinstance(y, ast.Attribute) and isinstance(y.value, ast.Name) and y.value.id in params
+                 and isinstance(y.ctx, ast.Load)]
+        why = None
+        if reads:
+            why = (f"reads {ast.unparse(reads[0])} of an argument: the cached answer is the one computed from the state that object had "
+                   f"at the first call")
+        else:
+            for p in cx.walker.paths(fn, WalkOptions(unroll=1, callee_raises=False)):
+                v = strip_versions(p.last.data.get('value')) if p.end == 'return' else None
+                if isinstance(v, Fresh) or (isinstance(v, App) and (v.fn.startswith('new:') or 'DataFrame' in v.fn or
+                                                                    any('DataFrame' in repr(a)[:60] for a in v.args[:1]))):
+                    why = f"returns {v!r}, an object built in the call: every caller with equal arguments receives the very same object"
+                    break
+        if why:
+            cx.violation(rule, fn.qualname, 'memoised-function-is-a-pure-function-of-immutable-values',
+                         f"{fn.qualname} is memoised ({ast.unparse(decs[0])}) but {why}", where=cx.where(fn))
+        else:
+            cx.ok(rule, f"{fn.name}: memoised function of immutable arguments returning an immutable value", where=cx.where(fn),
+                  function=fn.qualname)
+    # call form at module / class level: NAME = lru_cache(...)(target)
+    for mod in cx.prog.modules.values():
+        for name, v in mod.assigns.items():
+            if isinstance(v, ast.Call) and _memo_name(v.func) and v.args:
+                n += 1
+                tgt = v.args[0]
+                r = cx.prog.resolve_expr_static(tgt, mod) if isinstance(tgt, (ast.Name, ast.Attribute)) else None
+                kind = r[0] if r else None
+                is_ctor = kind == 'class' or (isinstance(tgt, ast.Name) and tgt.id[:1].isupper()) or \
+                    (isinstance(tgt, ast.Attribute) and tgt.attr[:1].isupper())
+                if is_ctor:
+                    cx.violation(rule, f"{mod.name}.{name}", 'memoised-constructor',
+                                 f"{mod.name}.{name} = {ast.unparse(v)}: a memoised constructor hands the same object (and whatever state "
+                                 f"it captured when it was first built) to every later call", where=f"{mod.relpath}:{v.lineno}")
+    cx.ok(rule, f"memoisation sites examined: {n}", function='package')
